@@ -22,6 +22,18 @@ Theorem C10_reachable_b : forall cfg n names ops, dwf_b (drun cfg (dinit n names
 Proof. intros. apply DWF_dwf_b. apply C10_reachable. Qed.
 Print Assumptions C10_reachable_b.
 
+(* conversely, what a `true` of the boolean test means for a state observed on the implementation:
+   on the live objects the two lists are duplicate-free and mirror each other, and a rank exists
+   (no cycle) *)
+Theorem C10_dwf_b_sound : forall s, dwf_b s = true ->
+  (forall x, x < dsize s ->
+     NoDup (parents s x) /\ NoDup (children s x)
+     /\ (forall p, In p (parents s x) -> p < dsize s /\ In x (children s p))
+     /\ (forall c, In c (children s x) -> c < dsize s /\ In x (parents s c)))
+  /\ exists r, forall p c, c < dsize s -> In p (parents s c) -> r p < r c.
+Proof. exact dwf_b_sound. Qed.
+Print Assumptions C10_dwf_b_sound.
+
 Theorem C10_step_preserves : forall cfg s o, DWF s -> DWF (fst (dstep cfg s o)).
 Proof. exact dstep_DWF. Qed.
 Print Assumptions C10_step_preserves.
